@@ -44,6 +44,15 @@ def run(res, tier, seed, broken):
             broken = broken + [{"obligation": "implementation side failed to run", "log": err[-3000:]}]
             break
 
+    out, e2 = C.run_impl("impl_c19b.py", {"seed": seed, "n": 400 if big else 120})
+    if out is None:
+        broken = broken + [{"obligation": "backward-fault oracle failed to run", "log": (e2 or "")[-3000:]}]
+    else:
+        res.add_cases(out["n"], out["keys"], out["samples"][:1])
+        for k, v in out["dist"].items():
+            res.count(k, v)
+        bad = bad + out["bad"]
+
     def hunt():
         for k in range(6 if big else 2):
             b, _, _ = history(res, "c19_hunt%d" % k, seed + 50 + k, 500)
